@@ -6,8 +6,9 @@ against Trace_Crash.tla."""
 import json, os, re, subprocess
 import vf
 
-CFG = """CONSTANTS G = {%s}  MaxCalls = %d  WriteThrough = TRUE
+CFG = """CONSTANTS G = {%s}  MaxCalls = %d  WriteThrough = TRUE  D = {%s}  Offsets = "append"
 SPECIFICATION Spec
+VIEW View
 INVARIANTS AckedSurvive NoUserBuffer Emit
 CHECK_DEADLOCK FALSE
 """
@@ -84,13 +85,13 @@ def classify(fd, rest):
 def run(ctx):
     thorough = ctx.tier == "thorough"
     rep = vf.Report(ctx)
-    shapes = [("1, 2", 3), ("1", 6), ("1, 2, 3, 4", 2)]
+    shapes = [("1, 2", 3, "1"), ("1", 6, "1"), ("1, 2, 3, 4", 2, "1"), ("1, 2", 2, "1, 2"), ("1", 4, "1, 2")]
     if thorough:
-        shapes += [("1, 2, 3", 4), ("1", 25), ("1, 2, 3, 4", 6)]
+        shapes += [("1, 2, 3", 4, "1"), ("1", 25, "1"), ("1, 2, 3, 4", 6, "1"), ("1, 2, 3", 3, "1, 2")]
     cases = []
-    for i, (g, n) in enumerate(shapes):
+    for i, (g, n, d) in enumerate(shapes):
         name = "MC_CrashPath_%d" % i
-        open(os.path.join(ctx.specdir, name + ".cfg"), "w").write(CFG % (g, n))
+        open(os.path.join(ctx.specdir, name + ".cfg"), "w").write(CFG % (g, n, d))
         r = ctx.tlc("CrashPath", name, timeout=1500, workers=4)
         seen = set()
         for e in r.emitted:
@@ -101,6 +102,9 @@ def run(ctx):
     buffered = ctx.tlc("CrashPath", "MC_CrashPath_buffered", timeout=600, expect_violation=True)
     if not buffered.violation:
         raise vf.Infra("the buffered variant of CrashPath no longer violates AckedSurvive: vacuous model")
+    private = ctx.tlc("CrashPath", "MC_CrashPath_private", timeout=600, expect_violation=True)
+    if not private.violation:
+        raise vf.Infra("the private-offset variant of CrashPath no longer violates AckedSurvive: vacuous model")
     res = ctx.vh_sharded("crash", cases, extra=["--variants", "6" if thorough else "3"], shards=8, timeout=2400)
     rep.absorb(res)
     # direction B: strace
@@ -151,6 +155,10 @@ def run(ctx):
     if not t.violation:
         raise vf.Infra("self-test: a trace with an acknowledgement before its write was accepted")
     rep.traces += len(runs)
+    # a call that returned has its line in a file: the rolling appender's witness behaviours (a write outliving two
+    # and four rotations, failed creation, restart, ...) replayed step by step with the directory compared after each
+    from checks import rolling_common
+    rolling_common.run(ctx, "C20", lite="witness", rep=rep)
     rep.extra["strace_runs"] = len(runs)
     rep.extra["acks_validated"] = nack
     rep.exhaustive = True
@@ -159,7 +167,9 @@ def run(ctx):
                 "is executed x %d appender-kind/layout variants on a child process logging through a synchronous logger to a "
                 "file, rolling-file or console (stdout -> file) appender; all acknowledgements the parent can read must have "
                 "their complete line in the target exactly once.  %d straced runs: TLC validates the write(2) log against "
-                "Trace_Crash.tla (each acknowledgement preceded by one write carrying the whole line).  Non-trivial = distinct "
+                "Trace_Crash.tla (each acknowledgement preceded by one write carrying the whole line).  The witness behaviours of "
+                "Rolling.tla (incl. one write that hits a closed file twice) replayed on the real appender: every returned write is "
+                "in the directory.  Non-trivial = distinct "
                 "(crash placement, kind, layout)." % (len(shapes), 6 if thorough else 3, len(runs)))
     rep.assumptions = ["TLC/SANY", "Go toolchain", "strace (ptrace permitted)", "a write(2) that returned is durable against process death (page cache)",
                        "the child acknowledges only after the log call returned"]
